@@ -288,6 +288,13 @@ class PipelineInterp(EvalInterp):
 
     def subscript_hook(self, base, idx, node):
         if isinstance(base, AArr) and idx == Sym("CROP"):
+            if getattr(base, "cropped", False):
+                # slicing an already cropped array again: legitimate only with a crop that was
+                # computed from this very array (in this run)
+                last = [s for s in self.root.stages if s[0] == "crop"]
+                srcs = [a for s in last[-1:] for a in list(s[1]) + list(s[2].values())]
+                if not any(a is base for a in srcs):
+                    self.root.__dict__.setdefault("double_crops", []).append((node, base.side))
             v = AArr(base.side, base.fresh, base.content, base.selection, origin=base)
             v.cropped = True
             v.stage = getattr(base, "stage", "input")
